@@ -6,13 +6,14 @@ from vlib.run import *
 def run(chk, replay=None):
     rng = random.Random(chk.seed)
     th = chk.tier == 'thorough'
+    LIM = streams.line_limit()      # the reader's line limit, measured on the compiled program
     line = streams.fixture_lines()[0][0] + b'\n'
     good = streamlib.gz_bytes(line * 3)
     chk.rule = ("host counts n in 1..4 x failing host index k x fault kinds {HTTP 401/404/500, connection reset before headers, body cut after j bytes, payload that is not gzip, "
                 "payload with an over-long line, unwritable output path, cluster lookup failing} + success; library level (harness) and through the CLI; TMPDIR listed after every run; "
                 "non-trivial = distinct (n, k, fault) triples")
     kinds = ['401', '404', '500', 'reset', 'cut0', 'cut7', 'cutmid', 'notgzip', 'toolong', 'outdir', 'empty200', 'onebyte', 'gzheader', 'emptygz', '204', '429']
-    not_a_fault = ('success', 'emptygz', '204')       # outcomes for which success may be reported; temp files must be gone all the same
+    not_a_fault = ('success', 'emptygz', '204') + (() if LIM is not None else ('toolong',))       # outcomes for which success may be reported; temp files must be gone all the same
     cases = []
     for n in ((1, 2, 3, 4) if th else (1, 3)):
         for k in range(n):
@@ -40,7 +41,7 @@ def run(chk, replay=None):
                 elif kind == 'cut7': h['cut'] = 7
                 elif kind == 'cutmid': h['cut'] = len(good) // 2
                 elif kind == 'notgzip': h['body'] = base64.b64encode(b'this is not gzip data at all').decode()
-                elif kind == 'toolong': h['body'] = base64.b64encode(streamlib.gz_bytes(line + b'x' * 70000 + b'\n' + line)).decode()
+                elif kind == 'toolong': h['body'] = base64.b64encode(streamlib.gz_bytes(line + b'x' * ((LIM or 70000) + 4464) + b'\n' + line)).decode()
             hw.append(h)
         world = {'challenge': 'digest', 'cluster_st': 500 if kind == 'cluster500' else 200,
                  'cluster_body': '{not json' if kind == 'cluster_badjson' else json.dumps({'connectionStrings': {'standard': atlaslib.conn_string(hosts)}}), 'hosts': hw}
@@ -64,6 +65,12 @@ def run(chk, replay=None):
             mt = [x.rsplit(':', 2)[0] for x in m['trace']]
             if it != mt or (r['rc'] != 0) != (m['status'] != 0) or len(r['tmp']) != m['tmp_left']:
                 chk.disagree('trace / status / temp files under a fault', case, {'trace': it, 'rc': r['rc'], 'tmp': len(r['tmp'])}, {'trace': mt, 'rc': m['status'], 'tmp': m['tmp_left']})
+            # the whole command (Model/Job.v): what is left in the working directory - the output file itself, created empty before the download,
+            # and nothing else when a download fails - together with status and temp files
+            mj = atlaslib.model_job(Cfg(), True, world['cluster_st'], [x.split(':')[0].encode() for x in hosts], logs, None, 1000000, {good: line * 3})
+            if (r['rc'] != 0) != (mj['status'] != 0) or len(r['tmp']) != mj['tmp_left'] or r['outs'] != mj['files']:
+                chk.disagree('whole-run result of the Atlas job under a fault (files in the working directory, status, temp files)', case,
+                             {'files': {k2: v[:60] for k2, v in r['outs'].items()}, 'rc': r['rc'], 'tmp': len(r['tmp'])}, {'files': {k2: v[:60] for k2, v in mj['files'].items()}, 'rc': mj['status'], 'tmp': mj['tmp_left']})
         if r['tmp']:
             chk.violate('downloaded log file left in the temporary directory', case, tags=['leak', kind])
         if kind not in not_a_fault and r['rc'] == 0:
